@@ -298,6 +298,10 @@ impl EventParser {
                 // &expr - recurse into inner expression
                 return self.infer_type_from_init(&expr_ref.expr, symbols);
             }
+            Expr::MethodCall(method_call) if method_call.method == "clone" => {
+                // expr.clone() has the type of expr (let update = update.clone();)
+                return self.infer_type_from_init(&method_call.receiver, symbols);
+            }
             _ => {}
         }
         "unknown".to_string()
